@@ -58,9 +58,12 @@ TrScanDone ==
   /\ IsEv("build.scan.done") /\ Consume
   /\ active # None /\ ScanDone(active, Ev.errors)
 
+\* The cancel flag is read without a lock some time before the hook logs
+\* the outcome: the read is a silent step (CompileSample, see Silent) between
+\* build.scan.done and this event.
 TrCompileDone ==
   /\ IsEv("build.compile.done") /\ Consume
-  /\ active # None
+  /\ active # None /\ build[active].phase = "sampled"
   /\ \E le \in BOOLEAN : CompileDone(active, le)
   /\ build'[active].outcome = (IF Ev.cancelled THEN "cancelled" ELSE IF Ev.errors THEN "errors" ELSE "ok")
 
@@ -73,7 +76,7 @@ TrOutWrite ==
 \* A stale file is deleted: only in the write phase (also of a failed build)
 TrOutDelete ==
   /\ IsEv("out.delete") /\ Consume
-  /\ active # None /\ build[active].phase \in {"scanned", "compiled"}
+  /\ active # None /\ build[active].phase \in {"scanned", "sampled", "compiled"}
   /\ UNCHANGED vars
 
 \* End of the write phase.  After a scan with errors there is no separate
@@ -81,7 +84,7 @@ TrOutDelete ==
 TrWriteDone ==
   /\ IsEv("build.write.done") /\ Consume
   /\ active # None
-  /\ IF build[active].phase = "scanned"
+  /\ IF build[active].phase \in {"scanned", "sampled"}
        THEN /\ build[active].scanErr
             /\ build' = [build EXCEPT ![active].phase = IF NOnEnd = 0 THEN "ended" ELSE "written",
                                       ![active].outcome = "errors"]
@@ -162,6 +165,7 @@ Silent ==
   /\ \/ \E c \in Callers : DisposeStopWatcher(c) \/ DisposeWatcherStopped(c) \/ CancelFlag(c)
      \/ WatcherExit
      \/ RecentExpire
+     \/ (active # None /\ CompileSample(active))
 
 TraceNext ==
   \/ TraceReset
